@@ -270,6 +270,20 @@ def run_case(spec, inputs=None):
     out = dict(violations=[], counters={}, sets={}, nontrivial=False,
                sig=[call["pi_method"], len(call["estimands"]), len(call["prediction_intervals"]),
                     bool(call["model_parameters"].get("lambda_"))])
+    if spec["i"] % 2 == 1 and inputs is None:
+        # history of the process: it has answered a bootstrap request for this election before (a service computes
+        # margins with the bootstrap and vote counts with the conformal estimators side by side); what the conformal
+        # models do about a failed solve must not depend on that
+        import copy
+
+        bcall = copy.deepcopy(call)
+        bcall.update(pi_method="bootstrap", estimands=["margin"], features=["baseline_normalized_margin"],
+                     fixed_effects={}, prediction_intervals=[0.9],
+                     aggregates=["postal_code"] + (["district"] if el.district else []) + ["unit"])
+        bcall["model_parameters"] = dict(B=5, lambda_=1.0, seed=1)
+        _r, _e = harness.run_estimates(el, feed, bcall)
+        out["counters"]["elections_after_a_bootstrap_run_in_this_process"] = 1
+        out["counters"]["bootstrap_warmups_completed"] = int(_e is None)
     inj = Injector()
     with harness.patched() as p:
         inj.install(p)
